@@ -113,16 +113,24 @@ class ServiceDecorator(Decorator):
 
     async def start(self) -> None:
         """Register the service under each of its names."""
-        for domain, name in self.args:
-            _LOGGER.debug("Registering service: %s.%s", domain, name)
-            Function.service_register(
-                self.dm.ast_ctx.global_ctx.get_name(),
-                domain,
-                name,
-                self._service_callback,
-                self.kwargs.get("supports_response"),
-            )
-            async_set_service_schema(Function.hass, domain, name, self.description)
+        registered = []
+        try:
+            for domain, name in self.args:
+                _LOGGER.debug("Registering service: %s.%s", domain, name)
+                Function.service_register(
+                    self.dm.ast_ctx.global_ctx.get_name(),
+                    domain,
+                    name,
+                    self._service_callback,
+                    self.kwargs.get("supports_response"),
+                )
+                registered.append((domain, name))
+                async_set_service_schema(Function.hass, domain, name, self.description)
+        except Exception:
+            # the declaration fails as a whole: don't leave the names registered so far behind
+            for domain, name in registered:
+                Function.service_remove(self.dm.ast_ctx.global_ctx.get_name(), domain, name)
+            raise
 
         # update service params. In the legacy implementation, Pyscript services were registered
         # right after the function definition, then decorators were executed, and finally the
